@@ -324,6 +324,15 @@ impl FieldParser {
         let mut fields = vec![];
         let mut remaining = i;
 
+        // Smallest encoding of one record: a variable-length field needs at least its
+        // one-byte length prefix. Anything shorter left in the set is padding.
+        let min_record_size = template.get_fields().iter().fold(0usize, |acc, f| {
+            acc.saturating_add(match f.field_length {
+                65535 => 1,
+                length => usize::from(length),
+            })
+        });
+
         // One iteration per record; a loop rather than recursion so that the
         // number of records in a set cannot exhaust the stack.
         loop {
@@ -338,7 +347,7 @@ impl FieldParser {
                 remaining = i;
             }
 
-            if total_taken == 0 || remaining.len() < total_taken {
+            if total_taken == 0 || remaining.len() < min_record_size {
                 break;
             }
         }
